@@ -49,9 +49,13 @@ MUTANTS = [
     ('m11-nfall-miscount', ['C13'], 'wave_sim.py',
      "    nfall = z_cur // 2",
      "    nfall = (z_cur + 1) // 2"),
-    ('m12-indexlist-forgets-reindex', ['C09'], 'circuit.py',
-     "            replacement.index = index\n",
-     "            pass\n"),
+    # (an IndexList that forgets to re-index crashes already while kyupy.techlib is imported - not a useful mutant)
+    ('m12-copy-reverses-port-order', ['C09', 'C10'], 'circuit.py',
+     "        for node in self.io_nodes:\n            if node.kind == '__fork__':\n                n = c.forks[node.name]",
+     "        for node in reversed(self.io_nodes):\n            if node.kind == '__fork__':\n                n = c.forks[node.name]"),
+    ('m24-eliminate-splices-to-pin0', ['C09', 'C10'], 'circuit.py',
+     "            in_line.reader_pin = out_reader_pin\n",
+     "            in_line.reader_pin = 0\n"),
     ('m13-line-remove-no-squeeze', ['C09'], 'circuit.py',
      "                for i, l in enumerate(self.driver.outs): l.driver_pin = i",
      "                pass"),
